@@ -78,6 +78,10 @@ func c02Unit(name string, lvl int) core.Unit {
 		seenLetter := map[rune]bool{}
 		seenTok := map[string]bool{}
 		for _, i := range adm {
+			// members with a component of 5 or more digits (width- and magnitude-dependent shortcuts)
+			if bigComponent.MatchString(u.Strs[i]) && len(u.Strs[i]) < 24 {
+				boundSet[i] = true
+			}
 			for _, c := range u.Strs[i] {
 				if (c >= 'a' && c <= 'z' || c >= 'A' && c <= 'Z') && !seenLetter[c] {
 					seenLetter[c] = true
@@ -350,7 +354,7 @@ func init() {
 				"distinct_nontrivial":           r.Counters["true_results"],
 			}
 		},
-		Rule:        "per ecosystem: every comparator of the documented syntax table x every bound of a stride sub-universe of U_E (plus one bound per distinct letter) x every probe; every comparator pair x AND separator x bound pair x probe; every comparator pair x OR separator; (x AND y) OR z. Expected value computed from the real Compare. states = distinct range strings built; transitions = range parses + Contains calls; distinct_nontrivial = evaluations whose result is true (range and probe interact non-vacuously).",
+		Rule:        "per ecosystem: every comparator of the documented syntax table x every bound of a stride sub-universe of U_E (plus one bound per distinct letter and every member with a component of 5 or more digits) x every probe; every comparator pair x AND separator x bound pair x probe; every comparator pair x OR separator; (x AND y) OR z. Expected value computed from the real Compare. states = distinct range strings built; transitions = range parses + Contains calls; distinct_nontrivial = evaluations whose result is true (range and probe interact non-vacuously).",
 		Assumptions: []string{"bounds beginning with a comparator character or containing separator characters are out of scope (property text)", "syntax table (comparators, separators) is written from the documentation; maven has no comparator syntax"},
 	})
 }
